@@ -21,4 +21,5 @@ def run(F, tier):
     numdate.n2_n3(rep, F, ft)
     rep.sample({"amount_types": [(t.split("::")[-1], f, c) for t, f, c in numdate.amount_types(ft)]})
     accept.u6(rep, F, "amount")
+    accept.u7(rep, F, "amount")
     return rep
